@@ -267,7 +267,12 @@ def run(ctx, rep):
             w = a.intersect(suf).witness()
             # such strings exist (e.g. '[epsexpl]') only through the over-accepting [epsilon] case: C02/T7b known finding
             rep.note("symbols ending in %r that satisfy the non-table dispatch test %s exist (e.g. %r); see C02 finding F10" % (suffix, unparse(t), w)) if w else None
-    rep.floor("M4", 21)
+    # "dispatched to the X case, which rejects it" holds in every grammar state only if that case validates the symbol on
+    # every path (shared with C02/T8): no path consumes a ring / branch shaped symbol without its processor
+    from rules.C02 import check_validated_dispatch
+    mm = decmodel.extract(ctx)
+    check_validated_dispatch(rep, mm, decmodel.iterations(mm), "M4")
+    rep.floor("M4", 22)
 
     # ---- M5 def-use of the flag
     dec_f = ctx.api("decoder")
